@@ -437,7 +437,7 @@ func TestC18(t *testing.T) {
 		return nil
 	})
 	// (a2) injections into corpus files and generated programs
-	total := 1500 / cfg.NShards
+	total := 12000 / cfg.NShards
 	if cfg.Thorough() {
 		total = 200000 / cfg.NShards
 	}
